@@ -80,6 +80,20 @@ def vio(cls, detail, **sig):
     return {"class": cls, "detail": detail, "signature": sig, "owner": OWNER.get(cls)}
 
 
+def match_item(item, got):
+    """Does an emitted line satisfy one expected item?"""
+    want = item["line"]
+    if item.get("time"):
+        if not got.startswith(want):
+            return False
+        tail = got[len(want):]
+        lo, hi = item["time"]
+        return tables.canonical_int(tail) and lo <= int(tail) <= hi
+    if item.get("ack_free"):
+        return strip_ack(got) == strip_ack(want)
+    return got == want
+
+
 def strip_ack(line):
     parts = line.split(";", 5)
     if len(parts) == 6:
@@ -112,6 +126,7 @@ class NetRun:
         self.cb_calls = 0
         self.stopped = False
         self.trace = []  # compact per-op trace for samples
+        self.poisoned = set()  # nodes whose desired state holds a value the wire cannot carry
         gw_kwargs = {"protocol_version": self.version}
         self.fs = simfs.SimFS(bufsize=cfg.get("bufsize", 8192))
         if self.persist:
@@ -187,6 +202,7 @@ class NetRun:
                 continue
             self.add(vio("thread-died", {"role": role, "exc": exc, "trace": trace[-1500:]},
                          role=role, exc=exc.split("(")[0], site=_site(trace)))
+        fatal = bool(sim.died)
         sim.died.clear()
         loop = self.world.loop
         if loop is not None and loop.exceptions:
@@ -200,8 +216,15 @@ class NetRun:
         for entry in self.world.logic_log:
             res = entry[2]
             if res and res[0] == "raised":
+                fatal = True
+                flds = tables.parse_canonical(str(entry[0]))
+                if flds is not None and flds[2] == 3 and flds[4] in (22, 32):
+                    # failing at wake-up instead of refusing the desired value at call time
+                    self.add(vio("burst-raised", {"line": entry[0], "exc": res[1], "msg": res[2]}, exc=res[1]))
                 self.add(vio("logic-raised", {"line": entry[0], "exc": res[1], "msg": res[2]}, exc=res[1]))
         del self.world.logic_log[:]
+        if fatal:
+            raise StopRun()  # the pump (or another library thread) is gone: nothing after this is meaningful
 
     # -------------------------------------------------------------------- start
     def start(self):
@@ -213,25 +236,34 @@ class NetRun:
         self.health()
 
     # ------------------------------------------------------------------ inbound
+    def mqtt_map(self, text):
+        """How a line travels over MQTT: five topic levels + payload, QoS from the ack
+        field.  Returns (topic, payload, qos, line the gateway must see or None when the
+        topic is not <in_prefix>/<five levels>)."""
+        parts = text.split(";")
+        prefix = self.broker.in_prefix
+        if len(parts) >= 6:
+            levels, payload = parts[:5], ";".join(parts[5:])
+        else:
+            levels, payload = parts, ""
+        topic = prefix + "/" + "/".join(levels)
+        try:
+            qos = 1 if int(levels[3]) > 0 else 0
+        except (ValueError, IndexError):
+            qos = 0
+        seen = None
+        if len(levels) == 5 and not any("/" in lev for lev in levels):
+            seen = ";".join(levels[:3] + [str(qos)] + levels[4:5]) + ";" + payload
+        return topic, payload, qos, seen
+
     def send_line(self, text, ending="\n"):
-        """Deliver one line; returns False when the transport could not deliver it."""
+        """Deliver one line; returns (delivered?, None)."""
         world = self.world
         if self.broker is not None:
-            parts = text.split(";", 5)
-            if len(parts) != 6:
-                topic = self.broker.in_prefix + "/" + "/".join(parts)
-                return self.broker.deliver(topic, "", 0), None
-            topic = self.broker.in_prefix + "/" + "/".join(parts[:5])
-            try:
-                qos = 1 if int(parts[3]) > 0 else 0
-            except ValueError:
-                qos = 0
-            payload = parts[5]
+            topic, payload, qos, _seen = self.mqtt_map(text)
             ok = self.broker.deliver(topic, payload, qos)
             world.settle()
-            # what the gateway will see: ack derived from qos
-            seen = ";".join(parts[:3] + [str(qos)] + parts[4:])
-            return ok, seen
+            return ok, None
         ok = world.feed(text.encode("utf-8", "surrogateescape") + ending.encode())
         return ok, text
 
@@ -243,14 +275,11 @@ class NetRun:
         gateway = world.gateway
         seen_text = text
         if self.broker is not None:
-            parts = text.split(";", 5)
-            if len(parts) == 6:
-                try:
-                    qos = 1 if int(parts[3]) > 0 else 0
-                except ValueError:
-                    qos = 0
-                seen_text = ";".join(parts[:3] + [str(qos)] + parts[4:])
-        tier, fields = classify(seen_text, self.version)
+            seen_text = self.mqtt_map(text)[3]
+        if seen_text is None:
+            tier, fields = "A", None
+        else:
+            tier, fields = classify(seen_text, self.version)
         self.probe("tierA_lines" if tier == "A" else "tierB_lines")
         snap_before = (W.projection(gateway.sensors), W.transient(gateway.sensors), W.ota_state(gateway))
         t_before = world.sim.time()
@@ -274,7 +303,7 @@ class NetRun:
             return ok
         self.probe("accepted_lines")
         off = self.cfg.get("utc_offset", 0)
-        exp = self.model.on_line(fields, None)
+        exp = self.model.on_line(fields, (int(t_before + off), int(t_after + off)))
         self.kinds.add(exp.kind)
         self._check_expect(exp, fields, out, cbs, (int(t_before + off), int(t_after + off)), text)
         self._check_state(text)
@@ -314,23 +343,13 @@ class NetRun:
             self._check_emitted(out, {node, 255})
             self._check_callbacks(exp, fields, cbs)
             return
-        # ---- time reply --------------------------------------------------------------
+        if exp.wake is not None and exp.wake in self.poisoned:
+            # the node holds a desired value the wire cannot carry (outside C05/C08's
+            # quantifier): only the pump's health is checked for its bursts
+            self.probe("poisoned_wakeup")
+            self._check_callbacks(exp, fields, cbs)
+            return
         expected = [dict(e) for e in exp.out]
-        if exp.time_reply and expected:
-            lo, hi = time_window
-            tpl = expected[0]["line"]
-            got = lines[0] if lines else None
-            okay = False
-            if got is not None:
-                for sec in range(lo, hi + 1):
-                    if got == tpl.replace("None", str(sec)):
-                        okay = True
-                        expected[0]["line"] = got
-            if got is not None and not okay:
-                self.add(vio("time-reply-wrong", {"got": got, "window": [lo, hi], "template": tpl}))
-                expected[0]["line"] = got
-            if got is None:
-                expected[0]["line"] = tpl
         # ---- sequence part -----------------------------------------------------------
         seq_n = len(expected)
         got_seq = lines[:seq_n]
@@ -340,10 +359,10 @@ class NetRun:
             if i >= len(got_seq):
                 mism = ("missing", item)
                 break
-            a, b = got_seq[i], item["line"]
-            if item["ack_free"]:
-                a, b = strip_ack(a), strip_ack(b)
-            if a != b:
+            if not match_item(item, got_seq[i]):
+                if item.get("time") and got_seq[i].startswith(item["line"]):
+                    self.add(vio("time-reply-wrong", {"got": got_seq[i], "window": list(item["time"])}))
+                    continue
                 mism = ("wrong", item, got_seq[i])
                 break
         want_set = sorted(e["line"] for e in exp.out_set)
@@ -378,9 +397,13 @@ class NetRun:
         if exp.wake is not None:
             cls = {"missing": "burst-missing", "spurious": "burst-spurious", "wrong": "burst-order"}[kind]
             if kind == "wrong":
-                want_ms = sorted([e["line"] for e in exp.out])
-                if sorted(strip_ack(x) for x in lines[:len(want_ms)]) != sorted(strip_ack(x) for x in want_ms):
-                    cls = "burst-missing"
+                pool = list(lines[:len(exp.out)])
+                for item in exp.out:
+                    hit = next((g for g in pool if match_item(item, g)), None)
+                    if hit is None:
+                        cls = "burst-missing"
+                        break
+                    pool.remove(hit)
             item_kind = mism[1]["kind"] if isinstance(mism[1], dict) else None
             self.add(vio(cls, detail, item=item_kind))
             return
@@ -429,6 +452,24 @@ class NetRun:
 
     def _check_id(self, exp, lines, out):
         hdr = f"{exp.id_header[0]};{exp.id_header[1]};3;0;4;"
+        if self.model.sleeping(exp.id_header[0]):
+            # the requester itself is a sleeping node: its id response is withheld like any
+            # other reply (C07); the allocation is observed through the new node instead
+            self.probe("id_response_held")
+            if lines:
+                self.add(vio("sent-while-asleep", {"got": lines, "model_kind": "id-request"}, model_kind="id-request"))
+            fresh = [n for n in self.world.gateway.sensors if n not in self.model.nodes]
+            if len(fresh) == 1:
+                new_id = fresh[0]
+                if not isinstance(new_id, int) or not 1 <= new_id <= 254:
+                    self.add(vio("id-out-of-range", {"id": new_id}))
+                elif new_id in self.model.handed_out or (self.persist and self.clean_history and new_id in self.ids_all):
+                    self.add(vio("id-reused", {"id": new_id, "handed_out": list(self.ids_all)}))
+                self.model.on_id_assigned(new_id)
+                self.ids_all.append(new_id)
+                self.model.nodes[exp.id_header[0]]["held"].append(
+                    {"line": f"{hdr}{new_id}", "ack_free": False, "kind": "id-response", "time": None})
+            return
         resp = [ln for ln in lines if ln.startswith(hdr)]
         other = [ln for ln in lines if not ln.startswith(hdr)]
         if other:
@@ -550,6 +591,7 @@ class NetRun:
             except (TypeError, ValueError):
                 vtype_int = None
         raised = None
+        unwireable = isinstance(value, str) and (";" in value or "\n" in value or value != value.rstrip())
         try:
             world.call("set_child_value", nid, cid, real_vtype, value, **kw)
         except kernel.SimAbort:
@@ -563,6 +605,16 @@ class NetRun:
         lines = [o[0] for o in out]
         if cbs:
             self.add(vio("callback-spurious", {"call": "set_child_value", "got": [c[0] for c in cbs][:3]}, model_kind="controller-set"))
+        if unwireable:
+            # outside C05/C08's quantifier (the wire format cannot carry it); only the
+            # health of the pump matters (C01).  Keep the model in step with what was stored.
+            self.probe("set_unwireable_value")
+            if raised is None and vtype_int is not None:
+                action, _ = self.model.set_child_value_plan(nid, cid, vtype_int, value, kw.get("ack", 0))
+                if action == "store":
+                    self.poisoned.add(nid)
+            self.trace.append(("set-unwireable", nid, cid, str(vtype), value[:20], type(raised).__name__ if raised else "ok"))
+            return
         if raised is not None:
             self.probe("set_refused")
             if lines:
@@ -656,6 +708,8 @@ class NetRun:
         self.out_lines()
         self.health()
         self.lifetime += 1
+        if self.broker is not None:
+            del self.broker.subs[:]  # a new client session: the old subscriptions are gone
         world.build()
         try:
             world.start(persistence=bool(self.persist))
@@ -677,15 +731,12 @@ class NetRun:
             if after != before:
                 self.add(vio("restart-lost-state", {"diff": _diff(after, before), "format": self.persist}, format=self.persist))
             # continue from what was really loaded so later ops stay meaningful
-            for nid, rec in before.items():
-                node = self.model.nodes[nid] = _model_node_from_projection(nid, rec)
-                _ = node
+            for nid, rec in after.items():
+                self.model.nodes[nid] = _model_node_from_projection(nid, rec)
             trans = W.transient(world.gateway.sensors)
             for nid, tr in trans.items():
                 if tr["queue"] or tr["reboot"] or any(v for v in tr["desired"].values()):
                     self.add(vio("transient-resurrected", {"node": nid, "state": tr}))
-            if after != before:
-                raise StopRun()
         else:
             self.probe("restarts_without_persistence")
             if after:
